@@ -40,37 +40,37 @@ func Plan(prop, tier string) []Mode {
 	_ = pick
 	switch prop {
 	case "C01":
-		return []Mode{seq("seq", pick(4000, 400000), pick(250, 5000))}
+		return []Mode{seq("seq", pick(4000, 2000000), pick(250, 10000))}
 	case "C07":
-		return []Mode{seq("seq", pick(6000, 500000), pick(400, 5000))}
+		return []Mode{seq("seq", pick(6000, 2500000), pick(400, 15000))}
 	case "C08":
-		return []Mode{seq("seq", pick(449, 20049), pick(30, 400))}
+		return []Mode{seq("seq", pick(449, 100049), pick(30, 1000))}
 	case "C11":
-		return []Mode{seq("seq", pick(3625, 400625), pick(125, 5000))}
+		return []Mode{seq("seq", pick(3625, 2000625), pick(125, 12500))}
 	case "C12":
-		return []Mode{seq("seq", pick(281, 20081), pick(20, 400))}
+		return []Mode{seq("seq", pick(281, 100081), pick(20, 1000))}
 	case "C13":
 		return []Mode{seq("seq", pick(365, 30065), pick(25, 600))}
 	case "C14":
-		return []Mode{seq("seq", pick(2007, 300007), pick(130, 5000))}
+		return []Mode{seq("seq", pick(2007, 600007), pick(130, 5000))}
 	case "C15":
-		return []Mode{seq("seq", pick(1008, 100008), pick(64, 2000))}
+		return []Mode{seq("seq", pick(1008, 500008), pick(64, 4000))}
 	case "C16":
-		return []Mode{seq("seq", pick(10000, 1000000), pick(700, 20000))}
+		return []Mode{seq("seq", pick(10000, 5000000), pick(700, 40000))}
 	case "C20":
-		ms := []Mode{seq("seq", pick(928, 20528), pick(32, 500))}
+		ms := []Mode{seq("seq", pick(928, 100528), pick(32, 1000))}
 		if !q {
 			ms = append(ms, seq("full32", 256, 4))
 		}
 		return ms
 	case "C03":
-		return []Mode{seq("seq", pick(6000, 600000), pick(400, 8000))}
+		return []Mode{seq("seq", pick(6000, 3000000), pick(400, 20000))}
 	case "C06":
-		return []Mode{seq("seq", pick(10000, 1000000), pick(700, 15000))}
+		return []Mode{seq("seq", pick(10000, 4000000), pick(700, 25000))}
 	case "C04":
 		ms := []Mode{
 			seq("seq", pick(2000, 200000), pick(250, 5000)),
-			tagged(Mode{Name: "tierb", Build: "plain", Cases: pick(60000, 6000000), Batch: pick(4000, 50000), Par: 16, WatchdogS: 120, HangIs: "violation"}),
+			tagged(Mode{Name: "tierb", Build: "plain", Cases: pick(60000, 20000000), Batch: pick(4000, 100000), Par: 16, WatchdogS: 120, HangIs: "violation"}),
 			conc("lin", "plain", pick(3000, 90000), pick(250, 2000), 6, 1, 2, 4, 16),
 			conc("lin", "race", pick(400, 20000), pick(50, 1000), 8, 2, 4, 16),
 			conc("race", "race", pick(1000, 30000), pick(125, 1000), 6, 2, 4, 16, 8),
@@ -83,7 +83,7 @@ func Plan(prop, tier string) []Mode {
 		return ms
 	case "C05":
 		ms := []Mode{
-			tagged(Mode{Name: "tierb", Build: "plain", Cases: pick(40000, 2000000), Batch: pick(2500, 25000), Par: 16, WatchdogS: 120, HangIs: "violation"}),
+			tagged(Mode{Name: "tierb", Build: "plain", Cases: pick(40000, 8000000), Batch: pick(2500, 50000), Par: 16, WatchdogS: 120, HangIs: "violation"}),
 			conc("lin", "plain", pick(2000, 100000), pick(200, 2000), 6, 1, 2, 4, 16),
 			conc("lin", "race", pick(300, 10000), pick(50, 500), 8, 2, 4, 16),
 			conc("race", "race", pick(1000, 50000), pick(125, 1000), 6, 2, 4, 16, 8),
@@ -96,7 +96,7 @@ func Plan(prop, tier string) []Mode {
 		return ms
 	case "C09":
 		ms := []Mode{
-			tagged(Mode{Name: "tierb", Build: "plain", Cases: pick(40000, 2000000), Batch: pick(2500, 25000), Par: 16, WatchdogS: 60, HangIs: "violation"}),
+			tagged(Mode{Name: "tierb", Build: "plain", Cases: pick(40000, 8000000), Batch: pick(2500, 50000), Par: 16, WatchdogS: 60, HangIs: "violation"}),
 			conc("free", "plain", pick(600, 30000), pick(60, 600), 6, 1, 2, 4, 16),
 			conc("free", "race", pick(500, 25000), pick(50, 500), 8, 2, 4, 16, 8),
 		}
@@ -147,7 +147,7 @@ func Plan(prop, tier string) []Mode {
 		}
 		return ms
 	case "C02":
-		return []Mode{seq("seq", pick(600, 40000), pick(40, 500))}
+		return []Mode{seq("seq", pick(600, 160000), pick(40, 1000))}
 	}
 	return nil
 }
